@@ -231,6 +231,8 @@ def _worker(job):
         c["term_names"] = [t.name for t in gi.terms]
         c["prod_names"] = [str(p) for p in g.productions]
         kw = {} if wsparam is None else {"ws": wsparam}
+        if job.get("slr"):
+            kw["tables"] = 0        # SLR main table (the LAYOUT sub-parser is built by Parser itself)
         lr = glr = lr_twin = None
         try:
             with cpu_limit(8), impl.quiet():
@@ -244,7 +246,7 @@ def _worker(job):
                                     bool(lp.return_position), bool(lp.lexical_disambiguation)]
                 if LAYOUTS[layout][2]:
                     with impl.quiet():
-                        lr_twin = Parser(g, build_tree=True)
+                        lr_twin = Parser(g, build_tree=True, **({"tables": 0} if job.get("slr") else {}))
                     lr_twin.layout_parser = None
                     lr_twin.ws = WS
         except BaseException as e:  # noqa
@@ -486,7 +488,7 @@ def gen_jobs(ctx):
         else:
             rest = CONFIGS[1:]
             cfgs = [CONFIGS[0], rest[bi % len(rest)], rest[(bi + 3) % len(rest)]]
-        job = {"name": name, "rules": rules, "termdefs": tdefs,
+        job = {"name": name, "rules": rules, "termdefs": tdefs, "slr": bi % 3 == 1,
                "configs": [(c, l, w) for c, l, w, _ in cfgs], "inputs": {}}
         m = {"name": name, "need_sep": need_sep, "cases": {}, "cfgs": cfgs}
         # the ws-kind variants are shared by all ws-equivalent configurations (needed for LAYOUT-vs-ws)
